@@ -132,7 +132,7 @@ impl State for FileState {
         let mut total_size: u64 = 0;
         let mut reader = BufReader::with_capacity(BUF_READER_CAPACITY_BYTES, file);
         let mut current_index = 0;
-        let mut entries_count = 0;
+        let mut entries_count: u64 = 0;
         loop {
             let index = reader
                 .read_u64_le()
